@@ -3,6 +3,9 @@
 import json, os
 ROOT = os.path.dirname(os.path.dirname(os.path.abspath(__file__)))
 cfg = json.load(open(os.path.join(ROOT, "checks.json")))
+import glob
+for frag in sorted(glob.glob(os.path.join(ROOT, "checks.d", "*.json"))):
+    cfg["checks"].update(json.load(open(frag)))
 props = [json.loads(l) for l in open(os.path.join(ROOT, "properties.jsonl")) if l.strip()]
 na_path = os.path.join(ROOT, "not_applicable.json")
 na_reasons = json.load(open(na_path)) if os.path.exists(na_path) else {}
